@@ -58,7 +58,7 @@ META.update({
         "already holds the same grid object), the set-up functions of four asset classes do so too ('same grid object, another asset's cache' case), "
         "frames (prices / orders / interval dictionaries / take dictionaries (prep_date_dict) / portfolio object not written); the four set-up contracts also when the grid was set before and another asset has overwritten the shared cache since ('preset' mode). Bounded: histories <= 3 incl. own-frequency assets and an "
         "order book; structured assets. " + PROOF_NOTE)),
-    'C12': dict(level='other', assumptions=['A2', 'A3', 'A4', 'A5'], explanation="proved: dt = elapsed/unit for root (Tick) and coarse grids, make_vector converts with the window's own step lengths, storage holding cost uses each later step's own length; unit-scaling lemmas for every entry form. Bounded: real grids over DST in two units. Note A4: freq 'd' with a time zone is calendar-day based in pandas (bounded part decides it)."),
+    'C12': dict(level='other', assumptions=['A2', 'A3', 'A4', 'A5'], explanation="proved: dt = elapsed/unit for root (Tick) and coarse grids, make_vector converts with the window's own step lengths, storage holding cost uses each later step's own length; unit-scaling lemmas for every entry form. Durations: convert_time_unit keeps the elapsed time (result x new unit length = value x old unit length), convert_to_timegrid_freq gives that quotient for the grid's frequency, rounded up to a whole number of steps when asked to (tick frequencies). Bounded: real grids over DST in two units. Note A4: freq 'd' with a time zone is calendar-day based in pandas (bounded part decides it)."),
     'C14': dict(level='other', assumptions=['A2', 'A3', 'A4', 'A5', 'A6'], explanation=(
         "proved: interval grids keep the reference grid's cumulative time / discount factors (C14.discount); Portfolio.setup_split_optim_problem from the "
         "real source (harness bound: 1-3 intervals, loop unrolled; grid, boundary positions, problem sizes and mappings symbolic): the non-empty "
